@@ -28,7 +28,7 @@ func exec(op string) vlib.Res {
 	switch f[0] {
 	case "rw", "wg", "res", "burst", "eff", "proc":
 		return execLocal(op)
-	case "inl", "bw", "zl", "gl", "tcpclass", "accept", "conncap", "fill", "dialer", "drain":
+	case "inl", "bw", "zl", "gl", "tcpclass", "accept", "conncap", "fill", "dialer", "drain", "ws":
 		return execLocal(op)
 	case "dedup", "sys", "ing":
 		if os.Getenv("C11_NOCHILD") != "" {
@@ -65,6 +65,8 @@ func execLocal(op string) vlib.Res {
 		return execConnCap(f)
 	case "drain":
 		return execDrain(f)
+	case "ws":
+		return execWS(f)
 	case "fill":
 		return execFill(f)
 	case "dialer":
